@@ -6,7 +6,10 @@ closed term `check_case ...` (coq/Corr/ApproxCorr.v) evaluated by vm_compute, co
   vectorize(PersLandscapeExact(...)).values and death_vector(...)
 of the working tree.  Exact family: dyadic grids (n-1 a power of two), end points on multiples of
 step/4 (on the grid, exact half-way ties, off the grid) -> compared exactly.  Tolerance family: random
-doubles, end points kept away from half-way points -> compared within 1e-9 (relative to the scale)."""
+doubles, end points kept away from half-way points -> compared within 1e-9 (relative to the scale).
+Integer-dtype diagrams with end points off the grid, float32 / Fortran-order / strided / read-only arrays, and call
+histories (harness/history.py: landscape objects observed, used as operands, observed again; one diagram swept
+through several grids) are judged by the same predicate."""
 from fractions import Fraction
 
 from .. import core, history
@@ -29,14 +32,30 @@ RULE = ("seeded generator; exact family = dyadic start/stop, n-1 in {1,2,4,8,16,
         "last cell): the independent predicate checks the half-step bound for all depths at 6 fixed nodes (first two, last "
         "four) and 6 random nodes, landscaper == approx and the death vector; the Coq model is NOT run on these (verdict "
         "skip:size, vm_compute of ~5000 snaps on 500 nodes is too slow); thorough adds grids up to 129 nodes, up to 12 bars and a bounded-exhaustive sweep of "
-        "all bars / pairs of bars on quarter-step positions of the 3- and 5-node grids. A case is non-trivial when the call succeeds, some node receives a value and "
+        "all bars / pairs of bars on quarter-step positions of the 3- and 5-node grids. "
+        "Containers (same numbers, other arrays): int_offgrid (24 quick / 400 thorough) = integer end points in an int64/int32 array on a "
+        "dyadic grid whose nodes are not integers (start on a multiple of 1/8, step 0.5..4; or only one / no end fixed, the learned "
+        "integer ends giving a dyadic non-integer step), compared exactly; int_tol (24 / 400) = integer-dtype diagrams on grids with an "
+        "arbitrary step (3-40, 8, 13, 24, 50, 100 nodes, thorough also 250 and the default 500; integer or real grid ends, all / one / "
+        "none fixed), tolerance family; 10% of every exact/tolerance case is handed over in Fortran order, as a strided view into a "
+        "larger array or read-only, 6% of the exact ones as float32. "
+        "Call histories (21 quick / 240 thorough; every step is an ordinary case judged by the ordinary predicate, arrays shared by "
+        "identity, the PersLandscapeApprox object shared per (diagram, grid), the PersistenceLandscaper objects shared per constructor "
+        "parameters): operands = 2-4 diagrams of different sizes on one user-fixed grid (exact, tolerance or integer family) are built and "
+        "observed, then used (P+Q, P-Q, running sum and mean, scalar multiple, quotient, negation, norms, slices, values_to_pairs, "
+        "compute_landscape again, snap_pl on the same and on another grid, lc_approx, average_approx, a rejected sum of landscapes on "
+        "different grids; the results are not judged), then all observed again in random order; sweep = one diagram through other "
+        "num_steps / a 3x wider grid / a degree that does not exist (rejected) / another memory layout and back to the first "
+        "configuration. A history is non-trivial when at least two of its steps are. A case is non-trivial when the call succeeds, some node receives a value and "
         "either an end point is off the grid or two bars overlap at a node (depth >= 2); distinct = distinct JSON input")
 TRUSTED_BASE = [
     "Coq 8.16.1 kernel, vm_compute (no native_compute)",
     "Q/Z/list developments: closed under the global context (no axioms)",
     "hand-written model Model/ApproxM.v of approximate.py 134-142/173-239, auxiliary.py 134-142, tools.py 20-40/166-203, "
     "transformer.py 84-130",
-    "harness: generator, float->exact-rational printer, exception->error-enum mapping, verdict parser",
+    "harness: generator, float->exact-rational printer, exception->error-enum mapping, verdict parser; call histories "
+    "(harness/history.py: steps run in one interpreter on interned arrays / landscape / transformer objects; histories are judged "
+    "by the predicate only, the Coq model is not run on them: verdict skip:history)",
 ]
 ASSUMPTIONS = [
     "numpy semantics of linspace (start + i*step), argmin (first minimum), interp, boolean masking, sorted() as modelled",
@@ -44,6 +63,10 @@ ASSUMPTIONS = [
     "tolerance family: binary64 rounding is bounded by the 1e-9 relative tolerance, not proved; inputs avoid "
     "half-way points so that rounding cannot flip a snap decision",
     "PersistenceLandscaper.fit with an infinite death and stop=None is outside the quantifier (finite diagrams)",
+    "a diagram is the same finite diagram whatever the dtype (float64, float32, int64, int32: the cast is applied only when it "
+    "is exact) and memory layout of its array; the model sees the exact rational values",
+    "call histories: a landscape object that has been used as an operand / argument of the landscape tools (never written to by "
+    "the harness) is still 'the approximate landscape' of its diagram and grid when .values is read again",
 ]
 COQ_DEPS = ["Corr/ApproxCorr.vo"]
 FINDING_EMPTY = "C08-empty-values"
@@ -329,21 +352,21 @@ def _histories(rng, n):
             rng.shuffle(again)
             hs.append(history.make("operands", first + again))
         else:
-            base = _exact_case(rng, rng.choice(["mixed", "off_grid", "inf", "defaults"])) if rng.random() < 0.6 else _tol_case(rng)
+            base = _exact_case(rng, rng.choice(["mixed", "off_grid", "off_grid", "inf", "defaults"])) if rng.random() < 0.6 else _tol_case(rng)
             steps = [_step(base, [{"op": rng.choice(OPS1), "x": 2.0}])]
-            for _ in range(rng.randint(2, 3)):
+            exact_both = base["family"] == "exact" and base["start"] is not None and base["stop"] is not None
+            kinds = ["reject", "layout", "layout2"] + (["n"] if base["family"] == "exact" else []) + (["wide", "n2"] if exact_both else [])
+            for kd in rng.sample(kinds, rng.randint(2, 3)):
                 c = dict(base)
-                r = rng.random()
-                if r < 0.4 and base["family"] == "exact":
-                    c["n"] = 2 * (base["n"] - 1) + 1 if base["n"] <= 33 else (base["n"] - 1) // 2 + 1
-                elif r < 0.6:
+                if kd in ("n", "n2"):
+                    c["n"] = 2 * (base["n"] - 1) + 1 if (base["n"] <= 33 and kd == "n") or base["n"] <= 3 else (base["n"] - 1) // 2 + 1
+                elif kd == "reject":
                     c["hom_deg"] = len(base["dgms"]) + rng.randint(0, 1)     # rejected: no such degree
-                elif base["start"] is not None and base["stop"] is not None and base["family"] == "exact":
+                elif kd == "wide":
                     w = base["stop"] - base["start"]
                     c["start"], c["stop"] = base["start"] - w, base["stop"] + w   # 3x the width: dyadic step again
-                    c["n"] = base["n"]
                 else:
-                    c["layout"] = rng.choice(LAYOUTS)
+                    c["layout"] = LAYOUTS[(LAYOUTS.index(base.get("layout", "F")) + (1 if kd == "layout" else 2)) % 3]
                 steps.append(_step(c, [{"op": rng.choice(OPS1), "x": 0.5}] if rng.random() < 0.5 else None))
             steps.append(_step(base))
             hs.append(history.make("sweep", steps))
@@ -444,7 +467,7 @@ def generate(rng, tier):
         cases.append(c)
     for c in cases:
         c["vec"] = False if c.get("big") else _vec_ok(c)
-    return cases + _histories(rng, 15 if tier == "quick" else 240)
+    return cases + _histories(rng, 21 if tier == "quick" else 240)
 
 
 def _exhaustive():
@@ -993,7 +1016,15 @@ def coq_judge(cases, outs, results):
         if t is not None:
             idx.append(i)
             terms.append(t)
-    toks, _ = core.eval_cases(PID, HEADER, terms, chunk=40)
+    # the terms are dealt round-robin to the Coq jobs (the expensive classes - many nodes - are generated in blocks);
+    # up to 1024 terms: one job per worker
+    nt = len(terms)
+    njobs = max(1, min(nt, core.NPROC if nt <= 64 * core.NPROC else -(-nt // 40)))
+    perm = [i for k in range(njobs) for i in range(k, nt, njobs)]
+    toks_p, _ = core.eval_cases(PID, HEADER, [terms[i] for i in perm], chunk=max(1, -(-nt // njobs)))
+    toks = ["ERROR"] * nt
+    for j, t in zip(perm, toks_p):
+        toks[j] = t
     for i, t in zip(idx, toks):
         try:
             code = int(t.replace("%Z", "").strip("() "))
